@@ -150,6 +150,38 @@ def handleH (st : St) (n : Nat) (toks : List String) : Result := Id.run do
           if !good then
             let r := fail st n "C10" "200 body carries a line that is not a valid witness cosignature over the submitted text"
             st := r.st; outs := outs ++ r.out
+  -- C01 through the endpoint: every checkpoint acknowledged with 200 joins the log's cosigned history
+  if istatus == 200 then
+    match Bastion.reqOf { logs := s.logs.map (fun l => (l.id, l.origin)), witV := mkVerifier st.vtab false wsc.name wsc.hash wvVid } body with
+    | some r =>
+      match (mkCfg st s false).find r.logID with
+      | some l =>
+        match Wit.parse l r.next, st.sess.get? sid with
+        | some (c, _), some s2 =>
+          let lidS := hx r.logID
+          let prevs := s2.accepted.getD lidS []
+          let truth := s2.truth.getD lidS []
+          for p in prevs do
+            if c.size < p.size then
+              let f := fail st n "C01" s!"cosigned size went down (acknowledged by the bastion endpoint): {p.size} then {c.size}"
+              st := f.st; outs := outs ++ f.out
+            else if c.size == p.size && c.hash != p.root then
+              let f := fail st n "C01" s!"two cosigned checkpoints of size {c.size} with different roots (acknowledged by the bastion endpoint)"
+              st := f.st; outs := outs ++ f.out
+            else if p.size > 0 then
+              let brs := truth.filter (fun t => t.2.1 == c.size && t.2.2 == c.hash)
+              let known := truth.any (fun t => t.2.1 == p.size && t.2.2 == p.root)
+              if known && !brs.isEmpty then
+                if !(brs.any (fun b => truth.any (fun t => t.1 == b.1 && t.2.1 == p.size && t.2.2 == p.root))) then
+                  let f := fail st n "C01" s!"cosigned both sides of a split view through the bastion endpoint: size {p.size} and size {c.size} are on different branches"
+                  st := f.st; outs := outs ++ f.out
+          st := st.bump "c01.endpoint.acknowledged"
+          match st.sess.get? sid with
+          | some s3 => st := { st with sess := st.sess.insert sid { s3 with accepted := s3.accepted.insert lidS ({ size := c.size, root := c.hash } :: prevs) } }
+          | none => pure ()
+        | _, _ => pure ()
+      | none => pure ()
+    | none => pure ()
   match st.sess.get? sid with
   | some s2 => st := { st with sess := st.sess.insert sid { s2 with sg := [] } }
   | none => pure ()
